@@ -73,6 +73,7 @@ type c15Farm struct {
 	divSamples []string
 	problems   map[string]int
 	actions    map[string]int64
+	held       map[string]int64 // steps after which an operation is parked in user code with Pool.mu held, by action and method
 	routes     map[string]int64
 	anoms      map[string]int64
 	sigCount   map[string]int
@@ -84,7 +85,7 @@ type c15Farm struct {
 
 func newC15Farm(c *vf.Ctx, n int) (*c15Farm, error) {
 	f := &c15Farm{c: c, probe: make(chan c15Variant, 1), raw: map[int][]byte{}, tag: map[int]string{}, seen: map[uint64]bool{}, problems: map[string]int{},
-		actions: map[string]int64{}, routes: map[string]int64{}, anoms: map[string]int64{},
+		actions: map[string]int64{}, held: map[string]int64{}, routes: map[string]int64{}, anoms: map[string]int64{},
 		sigCount: map[string]int{}, sigBest: map[string]map[string]any{}, sigLen: map[string]int{}, byTag: map[string]int64{}, sampled: map[string]bool{}}
 	for i := 0; i < n; i++ {
 		w := &c15Worker{inflight: map[int]bool{}, done: make(chan struct{}), lastMove: time.Now(), current: -1, q: make(chan []byte, 256)}
@@ -229,7 +230,7 @@ func (f *c15Farm) result(r *c15Result) {
 	}
 	labels := b.Labels()
 	hk := fnv.New64a()
-	fmt.Fprintf(hk, "%d/%d/%v:%s", b.Cap, b.Kcap, b.Exp, strings.Join(labels, ";"))
+	fmt.Fprintf(hk, "%d/%d/%v/%v:%s", b.Cap, b.Kcap, b.Exp, b.Fine, strings.Join(labels, ";"))
 	f.c.Eval(fmt.Sprintf("%016x", hk.Sum64()))
 	f.mu.Lock()
 	defer f.mu.Unlock()
@@ -238,6 +239,9 @@ func (f *c15Farm) result(r *c15Result) {
 	f.steps += int64(r.Steps)
 	for i := range b.Steps {
 		f.actions[b.Steps[i].A]++
+		if pk := b.Steps[i].Pk; pk.Op != "" {
+			f.held[b.Steps[i].A+" while "+pk.Op+" is in "+pk.At+"()"]++
+		}
 	}
 	if n := len(b.Steps); n > 0 {
 		for _, rt := range b.Steps[n-1].Rt {
@@ -379,21 +383,46 @@ func (f *c15Farm) crashed(w *c15Worker) (violation bool) {
 type c15Bounds struct {
 	nconns, puts, env, takes int
 	afterClose               bool
+	fine                     bool   // the user code the pool calls under Pool.mu is a step of its own; expiration on, capacities >= 0
+	caps, kcaps              string // fine only: the sets of Capacity / KeyCapacity values ("" = {0,1,2})
+}
+
+// with a negative capacity nothing is cached and without expiration nothing runs beside the operation:
+// the fine grain adds nothing there
+func (b c15Bounds) options() (caps, kcaps, exps string) {
+	if !b.fine {
+		return "{-1,0,1,2}", "{-1,0,1,2}", "{TRUE,FALSE}"
+	}
+	caps, kcaps = "{0,1,2}", "{0,1,2}"
+	if b.caps != "" {
+		caps = b.caps
+	}
+	if b.kcaps != "" {
+		kcaps = b.kcaps
+	}
+	return caps, kcaps, "{TRUE}"
 }
 
 func (b c15Bounds) String() string {
-	return fmt.Sprintf("keys=2 conns=%d puts=%d env=%d takes=%d afterClose=%v caps={-1,0,1,2}^2 exp={on,off}", b.nconns, b.puts, b.env, b.takes, b.afterClose)
+	caps, kcaps, exps := b.options()
+	g := ""
+	if b.fine {
+		g = "fine grain "
+	}
+	return fmt.Sprintf("%skeys=2 conns=%d puts=%d env=%d takes=%d afterClose=%v caps=%s kcaps=%s exp=%s", g, b.nconns, b.puts, b.env, b.takes, b.afterClose, caps, kcaps, exps)
 }
 
-const c15Invs = "TypeOK Consistent Safe FixedClean TakeOK NoEndlessLoop"
+const c15Invs = "TypeOK Consistent Parked Safe FixedClean TakeOK NoEndlessLoop"
 
 // emit: "" (no history), "terminal" (one behaviour per terminal state) or "edges" (one per transition)
 func c15Cfg(b c15Bounds, v c15Variant, emit string, view bool) (string, string, string) {
 	hist := emit != ""
-	name, mod, consts := vf.MCModule("Pool", map[string]string{"Caps": "{-1,0,1,2}", "KeyCaps": "{-1,0,1,2}"},
+	caps, kcaps, exps := b.options()
+	name, mod, consts := vf.MCModule("Pool", map[string]string{"Caps": caps, "KeyCaps": kcaps},
 		map[string]string{"Keys": "{1,2}", "NConns": fmt.Sprint(b.nconns), "MaxPuts": fmt.Sprint(b.puts), "MaxEnv": fmt.Sprint(b.env),
-			"MaxTakes": fmt.Sprint(b.takes), "Exps": "{TRUE,FALSE}", "AfterClose": strings.ToUpper(fmt.Sprint(b.afterClose)),
-			"Hist": strings.ToUpper(fmt.Sprint(hist)), "FixUnlink": strings.ToUpper(fmt.Sprint(v.UnlinkOnce)), "FixOwnList": strings.ToUpper(fmt.Sprint(v.OwnList))})
+			"MaxTakes": fmt.Sprint(b.takes), "Exps": exps, "AfterClose": strings.ToUpper(fmt.Sprint(b.afterClose)),
+			"Hist": strings.ToUpper(fmt.Sprint(hist)), "FixUnlink": strings.ToUpper(fmt.Sprint(v.UnlinkOnce)), "FixOwnList": strings.ToUpper(fmt.Sprint(v.OwnList)),
+			"Fine": strings.ToUpper(fmt.Sprint(b.fine))})
 	cfg := "SPECIFICATION Spec\n" + consts + "INVARIANTS " + c15Invs
 	if emit == "terminal" {
 		cfg += " EmitTerminal"
@@ -411,9 +440,9 @@ func c15Cfg(b c15Bounds, v c15Variant, emit string, view bool) (string, string, 
 // C15 - connection pool never exceeds its bounds or mishandles ownership.
 func C15(c *vf.Ctx) {
 	c.Assume = append(c.Assume,
-		"callers only put connections they own (a fresh one, or one Take handed out) and Put/Take/Close are atomic under Pool.mu (one action each); the expiry call-back is three steps: fire, val.Close(), removeEntry under the lock",
+		"callers only put connections they own (a fresh one, or one Take handed out); Put, Take and Close hold Pool.mu throughout. Coarse grain: one action each. Fine grain: every call of user code under the lock (Unblocked/Closed in Take, Close of an entry in Put's eviction and in Pool.Close) ends a step with the lock held; meanwhile timers fire and call-backs close their connection, and removeEntry, Put, Take and Close wait for the lock. The expiry call-back is three steps: fire, val.Close(), removeEntry under the lock",
 		"all timers share one duration, so they fire in put order; fake time (testing/synctest) makes the real timers fire exactly when the director advances the clock",
-		"the environment closes, blocks and unblocks connections only between pool calls")
+		"the environment closes, blocks and unblocks connections only between pool calls; what a method of a connection returns is the connection's state when it returns")
 	q := c.Quick()
 
 	farm, err := newC15Farm(c, 8)
@@ -453,6 +482,12 @@ func C15(c *vf.Ctx) {
 				NoDeadlck: true, Workers: workers, Simulate: sim, Seed: c.Seed}
 			if sim != "" {
 				o.Depth = 60
+				if b.fine {
+					o.Depth = 100 // an operation is up to one step per entry more
+				}
+			}
+			if b.fine {
+				o.HeapMB = 4000
 			}
 			if emit != "" {
 				o.OnLine = func(rec []byte) { farm.submit(tag, rec) }
@@ -483,16 +518,23 @@ func C15(c *vf.Ctx) {
 	//    its source state plus the step, and a seeded simulation sample of larger bounds
 	// C. the same with the pool used after Pool.Close (separate configuration)
 	if q {
-		run("design", c15Bounds{3, 3, 1, 1, false}, "", true, "", 6)
-		run("transitions", c15Bounds{3, 3, 0, 1, false}, "edges", true, "", 4)
-		run("simulation", c15Bounds{3, 4, 2, 2, false}, "terminal", false, "num=1500", 2)
-		run("after-close", c15Bounds{3, 3, 0, 0, true}, "edges", true, "", 3)
+		run("design", c15Bounds{3, 3, 1, 1, false, false, "", ""}, "", true, "", 6)
+		run("transitions", c15Bounds{3, 3, 0, 1, false, false, "", ""}, "edges", true, "", 4)
+		run("simulation", c15Bounds{3, 4, 2, 2, false, false, "", ""}, "terminal", false, "num=1500", 2)
+		run("after-close", c15Bounds{3, 3, 0, 0, true, false, "", ""}, "edges", true, "", 3)
+		run("fine-design", c15Bounds{3, 3, 1, 1, false, true, "", ""}, "", true, "", 3)
+		run("fine-transitions", c15Bounds{3, 3, 0, 1, false, true, "{0,2}", "{0,1}"}, "edges", true, "", 3)
 	} else {
-		run("design", c15Bounds{4, 4, 1, 1, false}, "", true, "", 9)
-		run("simulation", c15Bounds{4, 5, 2, 3, false}, "terminal", false, "num=40000", 2)
-		run("transitions", c15Bounds{3, 3, 1, 1, false}, "edges", true, "", 3)
-		run("after-close", c15Bounds{3, 3, 0, 1, true}, "edges", true, "", 2)
-		run("after-close-terminal", c15Bounds{4, 4, 0, 0, true}, "terminal", true, "", 2)
+		run("design", c15Bounds{4, 4, 1, 1, false, false, "", ""}, "", true, "", 9)
+		run("simulation", c15Bounds{4, 5, 2, 3, false, false, "", ""}, "terminal", false, "num=40000", 2)
+		run("transitions", c15Bounds{3, 3, 1, 1, false, false, "", ""}, "edges", true, "", 3)
+		run("after-close", c15Bounds{3, 3, 0, 1, true, false, "", ""}, "edges", true, "", 2)
+		run("after-close-terminal", c15Bounds{4, 4, 0, 0, true, false, "", ""}, "terminal", true, "", 2)
+		run("fine-design", c15Bounds{3, 3, 1, 2, false, true, "", ""}, "", true, "", 3)
+		run("fine-design-4", c15Bounds{4, 4, 0, 1, false, true, "", ""}, "", true, "", 3)
+		run("fine-transitions", c15Bounds{3, 3, 0, 1, false, true, "", ""}, "edges", true, "", 2)
+		run("fine-after-close", c15Bounds{3, 3, 0, 0, true, true, "", ""}, "edges", true, "", 2)
+		run("fine-simulation", c15Bounds{4, 5, 2, 3, false, true, "", ""}, "terminal", false, "num=20000", 2)
 	}
 	wg.Wait()
 	farm.drain()
@@ -525,10 +567,11 @@ func C15(c *vf.Ctx) {
 	c.Cov["steps_replayed_and_compared"] = farm.steps
 	c.Cov["behaviours_that_left_the_specification"] = farm.diverged
 	c.Cov["actions_replayed"] = farm.actions
+	c.Cov["steps_replayed_with_Pool_mu_held"] = farm.held
 	c.Cov["behaviours_by_route_in_final_state"] = farm.routes
 	c.Cov["behaviours_by_anomaly_predicted_by_the_specification"] = farm.anoms
 	c.Cov["signatures"] = farm.sigCount
-	c.Cov["rule"] = "Pool.tla models Put/Take/Close and the three steps of the expiry call-back over the pointer structure of the two intrusive lists and their count fields; TLC checks TypeOK, Consistent (lists and counts agree unless a recorded route was taken), Safe (no statement of the property fails unless a recorded route was taken), TakeOK and NoEndlessLoop exhaustively over all 32 option settings (Capacity, KeyCapacity in {-1,0,1,2}, expiration on/off). Every transition of the state graph (as a shortest behaviour into its source state plus the step; smaller bounds), a seeded simulation sample of maximal behaviours of larger bounds, and every transition of a configuration that uses the pool after Pool.Close are replayed on a real drpcpool.Pool in a testing/synctest bubble: after every step the count fields, walked list lengths, key presence, Close calls per connection, Take result, panics and the parked expiry call-backs are compared with the specification, and the property's monitors (bounds on walked lengths, Take result open/unblocked/not expiring/handed out once, not closed while handed out, finally handed out or closed) run on the real observations. At the end of every behaviour time is advanced to compare which timers are still pending; a behaviour on which the real pool leaves the specification is continued with the monitors only and ends with a direct probe of the bounds (fresh puts under every key). A behaviour is distinct by (options, call sequence)."
+	c.Cov["rule"] = "Pool.tla models Put/Take/Close and the three steps of the expiry call-back over the pointer structure of the two intrusive lists and their count fields, at two grains that share one transcription of the code (functions that run an operation from one call of user code under Pool.mu to the next): coarse - an operation is one action - and fine - the operation stops, with the lock held, in every ent.val.Unblocked()/Closed() of Take and every ent.val.Close() of Put's eviction and Pool.Close; while it is stopped timers fire and call-backs close, and the call-back's removeEntry waits for the lock. TLC checks TypeOK, Consistent (lists and counts agree between critical sections unless a recorded route was taken), Parked (what an operation hands to user code is linked / its timer stopped), Safe (no statement of the property fails unless a recorded route was taken), TakeOK and NoEndlessLoop exhaustively: coarse over all 32 option settings (Capacity, KeyCapacity in {-1,0,1,2}, expiration on/off), fine over Capacity, KeyCapacity in {0,1,2} with expiration on. Every transition of the state graph (as a shortest behaviour into its source state plus the step; smaller bounds) at both grains, a seeded simulation sample of maximal behaviours of larger bounds, and every transition of a configuration that uses the pool after Pool.Close are replayed on a real drpcpool.Pool in a testing/synctest bubble. A pool method runs on a goroutine of its own; in a fine-grained behaviour the fake connection parks it in every method the pool calls under its mutex, the director lets the clock reach exactly the deadline of a timer (it wakes at that instant; a goroutine waiting for a sync.Mutex is not durably blocked, so it neither sleeps past the deadline nor calls synctest.Wait while the lock is held) and finds the call-back at the gate of the fake Close or, by a goroutine census, waiting for Pool.mu. After every step the Close calls per connection, the parked call-backs, where the operation is parked (method, connection), and - between critical sections - count fields, walked list lengths, key presence, Take result and panics are compared with the specification, and the property's monitors (bounds on walked lengths, Take result open/unblocked/not expiring/handed out once, not closed while handed out, finally - after every operation and call-back has run to completion - handed out or closed) run on the real observations. At the end of every behaviour time is advanced to compare which timers are still pending; a behaviour on which the real pool leaves the specification is continued with the monitors only and ends with a direct probe of the bounds (fresh puts under every key). A behaviour is distinct by (options, grain, call sequence)."
 	c.Cov["exhaustive"] = false
 }
 
